@@ -78,11 +78,17 @@ impl Uni {
 /// Deterministic content of one add. `compressible` (compression requested / builder default):
 /// text or runs of at least 64 bytes, so that the stored form IS compressed (the model of the code
 /// distinguishes raw from compressed-or-encrypted blocks). Otherwise any class, incl. tiny files.
-/// All contents stay below 480 bytes stored, so every appended file occupies one 512-byte unit.
+/// Sizes range from 1 byte to several sectors (the size restriction of round 1 - one 512-byte unit
+/// per file, needed to predict the table overrun - was lifted when c4da446 fixed the overrun).
 fn content(seed: u64, label: &str, compressible: bool) -> Vec<u8> {
     let mut rng = Rng::derive(seed, label);
+    let big = match rng.below(40) {
+        0 => rng.range(20_000, 70_000),
+        1..=5 => rng.range(1_500, 6_000),
+        _ => 0,
+    } as usize;
     let (class, len) = if compressible {
-        (if rng.below(3) == 0 { "run" } else { "text" }, rng.range(64, 470) as usize)
+        (if rng.below(3) == 0 { "run" } else { "text" }, if big > 0 { big } else { rng.range(64, 1500) as usize })
     } else {
         let class = match rng.below(3) {
             0 => "random",
@@ -92,9 +98,9 @@ fn content(seed: u64, label: &str, compressible: bool) -> Vec<u8> {
         let len = match rng.below(4) {
             0 => rng.range(1, 7),
             1 => rng.range(8, 64),
-            _ => rng.range(65, 470),
+            _ => rng.range(65, 1500),
         } as usize;
-        (class, len)
+        (class, if big > 0 { big } else { len })
     };
     let mut v = gen_content(class, len, &mut rng);
     // make every content unique: overwrite a few leading bytes with label-derived hex digits
